@@ -102,7 +102,19 @@ class Report:
               + (f"  {str(ob.detail)[:300]}" if ob.verdict != DISCHARGED and ob.detail else ""), flush=True)
         return ob
 
-    def known(self, text: str) -> None:
+    def known(self, text: str, fid: str | None = None) -> None:
+        """One KNOWN-FINDING line per listed finding of *this* property; findings of other properties that a shared
+        lemma runs into are only noted (their class is excluded from the claim either way)."""
+        if fid is not None:
+            mine = {f["id"] for f in known_for(self.prop)}
+            if fid not in mine:
+                note = f"(finding {fid} of another property met and excluded: {text[:160]})"
+                if not any(n.startswith(f"(finding {fid} ") for n in self.notes):
+                    self.notes.append(note)
+                return
+            if any(l.split()[2] == fid for l in self.known_lines):
+                return
+            text = f"{fid} {text}"
         line = f"KNOWN-FINDING: property={self.prop} {text}"
         if line not in self.known_lines:
             self.known_lines.append(line)
